@@ -69,7 +69,9 @@ def run(chk, tier):
                         r = strip(cp.outcome[1]) if cp.outcome[0] == 'return' else ('unk', '')
                         okr = len(takes) == 1 and r[0] == 'call' and r[1] == takes[0].data[1] and r[3] == takes[0].data[3]
                         locked = any(True for _ in cp.calls(r'Mutex::lock$|RefCell::borrow_mut$')) and cp.effects.index(takes[0]) > min(cp.effects.index(e) for e in cp.calls(r'Mutex::lock$|RefCell::borrow_mut$')) if takes else False
-                        others = [e.data[1] for e in cp.calls() if not re.search(r'(MutexIsh::locked|Mutex::lock|Result::unwrap|DerefMut>?::deref_mut|FnOnce::call_once|Option::take|RefCell::borrow_mut)$', e.data[1])]
+                        # (calls of helpers that do not exist on the reference tree are opened up by the policy above: what they do shows up as their own effects)
+                        opened = lambda e_: (symex.callee_def(e_.term) in F.fns and symex.is_new_helper(F.fns[symex.callee_def(e_.term)])) if e_.term is not None else False  # noqa: E731
+                        others = [e.data[1] for e in cp.calls() if not re.search(r'(MutexIsh::locked|Mutex::lock|Result::unwrap|DerefMut>?::deref_mut|FnOnce::call_once|Option::take|RefCell::borrow_mut)$', e.data[1]) and not opened(e)]
                         chk.ob('R12.2', 'each request obtains the value only as the result of Option::take under the lock (no clone, no check-then-act)', okr and locked and not others, config=cfg, fn=cf, site='take',
                                what='single-use closure: take=%d locked=%s others=%s' % (len(takes), locked, others), found={'returns': show(r)[:160], 'other_calls': others})
         irm = [f for f in F.fns.values() if re.search(r'^output::owning::<impl output::IntoReturn<.*>::into_return$', f.defp)]
